@@ -84,3 +84,10 @@ Print Assumptions C19_algorithm_on_circular_strands.
 Example C19_nonvacuous :
   comp_strand BASE_LIBRARY ["DA5"; "DG"; "DC3"]%string = Some ["DG5"; "DC"; "DT3"]%string.
 Proof. exact ex_spec3. Qed.
+
+(* whatever the node keys of the strand (a .json graph may number its nodes in any order): the keys handed to the added
+   residues start above the highest key in use, so no residue of the original strand is overwritten *)
+Theorem C19_new_keys_are_fresh : forall g k,
+  Forall (fun n => n_key n < kmax g k + 1) (g_nodes g) /\ k < kmax g k + 1.
+Proof. exact kmax_fresh. Qed.
+Print Assumptions C19_new_keys_are_fresh.
